@@ -265,6 +265,9 @@ func (u *Upstream) WriteDataPoints(ctx context.Context, dataID *message.DataID, 
 }
 
 func (u *Upstream) run(isResume bool) error {
+	u.connState.cond.L.Lock()
+	reconnects := u.connState.ReconnectsWithoutLock()
+	u.connState.cond.L.Unlock()
 	ctx, cancel := context.WithCancel(u.ctx)
 	defer cancel()
 	eg, ctx := errgroup.WithContext(ctx)
@@ -315,7 +318,7 @@ func (u *Upstream) run(isResume bool) error {
 	}
 	eg.Go(func() error {
 		u.connState.cond.L.Lock()
-		for !u.connState.IsWithoutLock(connStatusReconnecting) {
+		for !u.connState.IsWithoutLock(connStatusReconnecting) && u.connState.ReconnectsWithoutLock() == reconnects {
 			select {
 			case <-ctx.Done():
 				u.connState.cond.L.Unlock()
